@@ -624,7 +624,8 @@ class StyleProperties:
 
     @classmethod
     def has_px(cls, attrib_value: styles.RubyReserveType) -> bool:
-      return attrib_value.length is not None and attrib_value.length.units == styles.LengthType.Units.px
+      return attrib_value is not styles.SpecialValues.none and \
+        attrib_value.length is not None and attrib_value.length.units == styles.LengthType.Units.px
 
     @classmethod
     def extract(cls, context: StyleParsingContext, xml_attrib: str):
@@ -882,6 +883,10 @@ class StyleProperties:
 
     @classmethod
     def from_model(cls, xml_element, model_value: styles.TextEmphasisType):
+      if model_value is styles.SpecialValues.none:
+        xml_element.set(f"{{{cls.ns}}}{cls.local_name}", "none")
+        return
+
       actual_values = []
 
       actual_values.append(model_value.style.value)
@@ -959,6 +964,9 @@ class StyleProperties:
 
     @classmethod
     def has_px(cls, attrib_value: styles.TextShadowType) -> bool:
+
+      if attrib_value is styles.SpecialValues.none:
+        return False
 
       for shadow in attrib_value.shadows:
         if shadow.x_offset.units == styles.LengthType.Units.px or \
